@@ -5,6 +5,12 @@
   C06.D4  the unconditional (fallback) function of every pointer is compiled for the x86-64 baseline
   C06.D3  every dispatch pointer that is called anywhere is assigned unconditionally by a setup function; a pointer assigned
           only under a guard is called only from units compiled for at least that instruction set
+  C06.ACC16  the AVX2 variance family never wraps its 16-bit sum lanes (a SIMD-only failure mode: the C reference sums in int):
+          variance_kernel_avx2 adds one 9-bit difference per pixel into 16 lanes with _mm256_add_epi16, so a lane holds at most
+          pixels/16 * 255; each further 16-bit reduction in a finaliser doubles that.  For every instantiation of the
+          AOM_VAR_*_AVX2 macros the pixel count handed to one accumulation pass (bw*bh, or bw*uh for the looping form) must
+          fit the capacity of the finaliser it names (2048 >> number of 16-bit reductions before widening), uh divides bh,
+          and the normalisation shift equals log2(bw*bh)
   C06.D5  the flags tested by the guards have been masked with the CPU's detected capabilities on every path from the init API
 """
 from engine.facts import pstr, ptext, strip, callee_name, subexprs, root_of, last_field, AnalysisBroken
@@ -13,8 +19,8 @@ from engine.rtcd import unit_isa, fn_isa, dispatch_entries, RANK, FLAG_ISA
 PID = 'C06'
 
 META = {
-    'technique': 'dispatch-table reconstruction from stores to function-pointer globals with their structured CPU-flag guards; instruction set of each installed function taken from the compile flags of its defining unit; set/graph checks (guard >= ISA, fallback is baseline, called => unconditionally set, mask dominates guards)',
-    'text': 'Decides that the run-time dispatch machinery is sound for every one of the ~1600 table entries: no kernel is installed under a weaker CPU guard than the instruction set it was compiled for, every fallback slot is baseline code, every pointer that is called is always set, and the flags used by the guards are masked by the detected CPU capabilities. These are necessary conditions for instruction-set independent output (a violation executes illegal instructions or silently changes which level runs); bit-exactness of the kernels themselves is not decided.',
+    'technique': 'dispatch-table reconstruction from stores to function-pointer globals with their structured CPU-flag guards; instruction set of each installed function taken from the compile flags of its defining unit; set/graph checks (guard >= ISA, fallback is baseline, called => unconditionally set, mask dominates guards); lane-capacity bound for 16-bit SIMD accumulators from macro-instantiation arguments and the count of 16-bit reductions in each finaliser',
+    'text': 'Decides that the run-time dispatch machinery is sound for every one of the ~1600 table entries: no kernel is installed under a weaker CPU guard than the instruction set it was compiled for, every fallback slot is baseline code, every pointer that is called is always set, and the flags used by the guards are masked by the detected CPU capabilities. These are necessary conditions for instruction-set independent output (a violation executes illegal instructions or silently changes which level runs); bit-exactness of the kernels themselves is not decided, with one exception where the failure mode is specific to SIMD and has a closed-form bound: the 16-bit sum lanes of the AVX2 variance kernels cannot wrap for any 8-bit input (C06.ACC16).',
     'note': 'x86-64 baseline (<= SSE2) counts as the reference level: SSE2 is architecturally guaranteed and the project compiles its "C" units for it; AVX-512 slots are compiled out in this configuration (EN_AVX512_SUPPORT=0)',
     'ref': 'DESIGN.md section 5 C06',
 }
@@ -137,6 +143,8 @@ def run(P, rep, tier):
                'the %d guarded stores of %s are %sdominated by `%s &= get_cpu_flags_to_use()` (or every caller masks the argument)' %
                (len(guarded), sname, '' if ok else 'NOT ', fl))
     rep.floor('C06.D5', 2)
+    run_acc16(P, rep)
+
 
 
 def _never_set_exempt(P, ptr, sites):
@@ -173,3 +181,57 @@ def _never_set_exempt(P, ptr, sites):
         if not okc:
             return False, ''
     return True, why
+
+def run_acc16(P, rep):
+    """16-bit lane capacity of the AVX2 variance family."""
+    fname = [f for f in P.macros if f.endswith('ASM_AVX2/variance_avx2.c')]
+    if not fname:
+        raise AnalysisBroken('variance_avx2.c not among the analysed units')
+    kern = P.fn('variance_kernel_avx2')
+    acc16 = [ev for ev in kern.events(('st',)) if ev['e'][0] == 'a' and any(x[0] == 'c' and callee_name(x) == '_mm256_add_epi16' for x in subexprs(ev['e'][3]))
+             and pstr(strip(ev['e'][2])).startswith('*sum')]
+    diffs = [ev for ev in kern.events(('decl',)) if ev.get('e') is not None and any(x[0] == 'c' and callee_name(x) == '_mm256_maddubs_epi16' for x in subexprs(ev['e']))]
+    if len(acc16) != 1 or len(diffs) != 2:
+        raise AnalysisBroken('variance_kernel_avx2 no longer has the shape (2 maddubs differences, one 16-bit accumulation): %d / %d' % (len(diffs), len(acc16)))
+    LANES, PER_LANE = 16, 32767 // 255           # 256-bit register of 16-bit lanes; |difference| <= 255 for 8-bit input
+    cap0 = LANES * PER_LANE                         # 2048 pixels
+    rep.ob('C06.ACC16', 'kernel', True, kern.loc(acc16[0]), 'variance_kernel_avx2: one 9-bit difference per pixel into %d 16-bit lanes: %d pixels fill a lane pass' % (LANES, cap0))
+
+    def reductions(fn):
+        n = 0
+        for ev, nm in fn.calls():
+            if nm in ('_mm_add_epi16', '_mm256_add_epi16', 'mm256_add_hi_lo_epi16'):
+                n += 1
+        return n
+    caps = {}
+    for n in ('512', '1024', '2048'):
+        fn = P.fn('variance_final_%s_avx2' % n)
+        k = reductions(fn)
+        caps[n] = cap0 >> k
+        rep.ob('C06.ACC16', 'finaliser:%s' % n, int(n) <= caps[n], fn.loc(), 'variance_final_%s_avx2 performs %d 16-bit reductions before widening: safe up to %d pixels' % (n, k, caps[n]))
+    ninst = 0
+    for line, col, name, args in P.macros[fname[0]]:
+        if name not in ('AOM_VAR_NO_LOOP_AVX2', 'AOM_VAR_LOOP_AVX2'):
+            continue
+        try:
+            bw, bh, bits, last = (int(a) for a in args)
+        except ValueError:
+            raise AnalysisBroken('%s(%s): non-literal arguments' % (name, args))
+        ninst += 1
+        probs = []
+        if (1 << bits) != bw * bh:
+            probs.append('normalisation shift %d is not log2(%d*%d)' % (bits, bw, bh))
+        if name == 'AOM_VAR_NO_LOOP_AVX2':
+            if str(last) not in caps:
+                raise AnalysisBroken('%s names an unknown finaliser %s' % (name, last))
+            if bw * bh > caps[str(last)]:
+                probs.append('%d pixels are accumulated before variance_final_%d_avx2, which is safe up to %d: a 16-bit sum lane wraps for |src - ref| near 255' % (bw * bh, last, caps[str(last)]))
+        else:
+            uh = last
+            if bh % uh:
+                probs.append('rows per pass %d does not divide the height %d' % (uh, bh))
+            if bw * uh > cap0:
+                probs.append('%d pixels (%dx%d) are accumulated per pass in 16-bit lanes, capacity %d: the sum wraps for |src - ref| above %d on average' % (bw * uh, bw, uh, cap0, 255 * cap0 // (bw * uh)))
+        rep.ob('C06.ACC16', '%s(%s)' % (name, ','.join(args)), not probs, '%s:%d' % (fname[0].replace('/repo/', ''), line),
+               ('%dx%d: %d pixels per 16-bit pass within capacity' % (bw, bh, bw * bh if name == 'AOM_VAR_NO_LOOP_AVX2' else bw * last)) if not probs else '; '.join(probs))
+    rep.floor('C06.ACC16', 18)
